@@ -35,7 +35,8 @@ def main():
             level_claimed=dict(category=mod.LEVEL, text=mod.LEVEL_TEXT, design_ref=f"DESIGN.md section 4, {pid}"),
             level_note=mod.LEVEL_NOTE,
             technique=mod.TECHNIQUE + ("; plus the same boundary monitors on a system-level workload of 2-4 complete SD stacks "
-                                       "(pv/mesh.py)" if getattr(mod, "MESH", None) else ""),
+                                       "(pv/mesh.py)" if getattr(mod, "MESH", None) else "")
+            + "; the library's loggers alternate between WARNING and DEBUG from scenario to scenario",
         ))
     man = dict(
         version=1,
